@@ -17,6 +17,7 @@ import Mochi.Driver.Crash
 import Mochi.Driver.Shutdown
 import Mochi.Driver.Hooks
 import Mochi.Driver.Alias
+import Mochi.Driver.InflOrder
 open Mochi.Driver
 
 structure DState where
@@ -30,6 +31,7 @@ structure DState where
   restart : St.SrState := {}
   shutdown : SdState := {}
   alias : AlState := {}
+  inflorder : IoState := {}
 
 /-- input line: `op args…<TAB>implementation output`;
     answer line: `model output<TAB>spec verdict<TAB>signature`; unknown op => `bad-op` -/
@@ -72,6 +74,9 @@ def answer (st : DState) (line : String) : DState × String :=
                   | none =>
                   match aliasOp st.alias impl ws with
                   | some (a', r) => ({ st with alias := a' }, fmt r)
+                  | none =>
+                  match inflOrderOp st.inflorder impl ws with
+                  | some (i', r) => ({ st with inflorder := i' }, fmt r)
                   | none => (st, "bad-op")
 
 partial def loop (h : IO.FS.Stream) (out : IO.FS.Stream) (st : DState) : IO Unit := do
